@@ -2,6 +2,7 @@
 from vlib import common as C, serve as S, reqgen as G, strict_http as H, servecheck as K
 from props import c04, c05
 
+DRIVERS = ['Serve']   # model driver files this check runs: scopes translator failures to the tables they (and the proofs) import
 TRUSTED = []
 ASSUMPTIONS = ['responses are those of the C04 and C05 campaigns plus a stream over every status class']
 WITH_MODEL = True
